@@ -527,7 +527,14 @@ impl Ms {
                         uniq.push(v.clone());
                     }
                 }
-                if !hostile && over.is_none() && matches!(self.prop, "C06" | "C03") && h.rng.chance(1, 5) {
+                let weightless = self.prop == "C03" && over.is_none() && !hostile && h.idx % 20 == 13;
+                if weightless {
+                    // a group nobody has voting weight in
+                    for u in uniq.iter_mut() {
+                        u.1 = 0;
+                    }
+                }
+                if !hostile && over.is_none() && matches!(self.prop, "C06" | "C03") && h.rng.chance(1, 5) && !weightless {
                     // a group larger than one listing page: further members who never vote
                     let extra = h.rng.range(8, 30);
                     for i in 0..extra {
@@ -543,7 +550,12 @@ impl Ms {
                     admin: Some(gadmin.clone()),
                     members: listed.iter().map(|(a, x)| cw4::Member { addr: a.clone(), weight: *x }).collect(),
                 };
-                let g = match w.c.instantiate(w.c.codes.group, &owner, &gmsg, "group", None) {
+                let nohist = self.prop == "C06" && over.is_none() && !hostile && h.idx % 24 == 17;
+                if nohist {
+                    h.out.count("flex_worlds_on_a_group_without_history");
+                }
+                let gcode = if nohist { w.c.codes.group_nohist } else { w.c.codes.group };
+                let g = match w.c.instantiate(gcode, &owner, &gmsg, "group", None) {
                     Res::Ok(a) => a,
                     _ => return None,
                 };
@@ -566,6 +578,11 @@ impl Ms {
                     }
                     r => r,
                 };
+                // on a weightless group also try thresholds that can never be valid (a count of zero passes with no Yes)
+                let rule = if weightless { [Rule::Count(0), Rule::Pct(0), Rule::Quorum(500_000_000_000_000_000, 0)][(h.idx / 20 % 3) as usize] } else { rule };
+                if weightless {
+                    h.out.count("flex_instantiate_attempts_with_an_invalid_threshold_on_a_weightless_group");
+                }
                 w.rule = rule;
                 w.group = Some(g.clone());
                 w.executor = match h.rng.below(4) {
@@ -2017,6 +2034,30 @@ impl Ms {
                         Act::ByStranger(Op::Close { id: 2 }),
                         Act::ByStranger(Op::Close { id: 3 }),
                         Act::ByStranger(Op::Execute { id: 3 }),
+                    ],
+                );
+                true
+            }
+            // the group behind a count threshold loses all its weight; a remaining (weightless) member proposes
+            ("C03", 6) | ("C03", 7) => {
+                let rule = if h.idx == 6 { Rule::Count(2) } else { Rule::Count(1) };
+                let over = Override { kind: Kind::Flex, voters: vec![(pool().actors[0].clone(), 2), (pool().actors[1].clone(), 1), (pool().actors[2].clone(), 0)], rule, period: Duration::Height(10), executor: None, deposit: false };
+                self.play(
+                    h,
+                    over,
+                    vec![
+                        Act::Adv(1),
+                        Act::Do(0, prop_op(vec![ping(1, 0, hist)])),
+                        Act::Adv(1),
+                        Act::Group(vec![(0, 0), (1, 0)], vec![]),
+                        Act::Adv(1),
+                        Act::Do(2, prop_op(vec![ping(2, 0, hist)])),
+                        Act::ByStranger(Op::Execute { id: 2 }),
+                        Act::Group(vec![], vec![0, 1]),
+                        Act::Adv(1),
+                        Act::Do(2, prop_op(vec![ping(3, 0, hist)])),
+                        Act::ByStranger(Op::Execute { id: 3 }),
+                        Act::ByStranger(Op::Execute { id: 2 }),
                     ],
                 );
                 true
